@@ -182,6 +182,7 @@ type Project struct {
 	Automan     []AutoRow         `json:"automan,omitempty"`     // rows of automan.txt; nil = default rows for the crops of the rotation
 	OtherFields []string          `json:"otherFields,omitempty"` // extra field ids mixed into the schedule files (noise of other fields)
 	FileExt     string            `json:"fileExt,omitempty"`     // batch line fileExtension=<ext>: rotation, polygon file and automatic-management table are read from *.<ext>; the *.txt files then hold another configuration
+	SelfWarm    []string          `json:"selfWarm,omitempty"`    // a run of the SAME project files with these extra arguments precedes the run in the same session
 	AltParams   bool              `json:"altParams,omitempty"`   // the parameter folder of this project holds OTHER tables than the shipped ones (sibling runs of a session)
 	Interleave  bool              `json:"interleave,omitempty"`  // schedule files sorted by date: lines of the other fields between the lines of this one
 	ExtraArgs   []string          `json:"extraArgs,omitempty"`
